@@ -46,7 +46,7 @@ INVARIANT ApiRefines
 CHECK_DEADLOCK FALSE
 """
 
-BROKEN = ("strict", "nosizecheck", "nototal", "nocheckint", "lenmaskbit")
+BROKEN = ("strict", "nosizecheck", "nototal", "nocheckint", "lenmaskbit", "lenzero")
 
 
 def cfg(td=(), tags=("s1",), en=(), k=(), fn=(), gv=(), prims=("int", "char"), feat=(), n=2, mut=1,
@@ -61,6 +61,8 @@ SCENARIOS = {
     "q_const": dict(tags=(), en=("e1",), k=("k1",), feat=("zero",), n=2),
     "q_bigk": dict(tags=(), en=("e1",), k=("k1",), feat=("bigconst",), n=1),
     "q_use": dict(tags=("s1",), fn=("f1",), gv=("g1",), prims=("int",), n=2),
+    # a global array declared with [...] next to a struct whose cdef is mutated (either order)
+    "q_arrdots": dict(tags=("s1",), gv=("g1",), prims=("int",), feat=("arr",), n=2),
     "sanity": dict(tags=("s1",), en=("e1",), k=("k1",), prims=("int", "char"), feat=("zero",), n=1),
     # thorough
     "struct2": dict(td=("t1",), tags=("s1", "s2"), feat=("union",), n=2),
@@ -398,6 +400,10 @@ def random_case(rng):
     elif c == 3 and structs:
         s = rng.choice(structs)
         beh.append({"a": "AddDots", "what": "su", "item": [s["kind"], s["tag"]]})
+    garr = [a for a in beh if a["a"] == "DeclGlobal" and a["t"][0] == "arr" and a["t"][2] >= 0]
+    if garr and not any(a["a"] == "AddDots" for a in beh) and rng.random() < 0.6:
+        # "extern T g[...];" - possibly next to the struct mutated above
+        beh.append({"a": "AddDots", "what": "gv", "item": rng.choice(garr)["n"]})
     return beh
 
 
@@ -406,7 +412,7 @@ def random_case(rng):
 def run(ctx):
     quick = ctx.quick
     jobs = int(os.environ.get("VERIF_JOBS", "8"))
-    scen = ["q_struct", "q_const", "q_bigk", "q_use"] if quick else ["q_struct", "q_const", "q_bigk", "q_use", "struct2", "mixed2"]
+    scen = ["q_struct", "q_const", "q_bigk", "q_use", "q_arrdots"] if quick else ["q_struct", "q_const", "q_bigk", "q_use", "q_arrdots", "struct2", "mixed2"]
 
     def tlc_job(name):
         r = core.tlc("CdefApi", cfg_text=cfg(emit=True, **SCENARIOS[name]), workers=1, timeout=1700)
